@@ -15,8 +15,8 @@ func init() {
 // prefixLoop describes `for l := …; l ⋈ len(b); l++ { dec.Transform(dst, b[:l], …) }`.
 // prefixCap: the largest prefix length a constant comparison in the loop condition lets through (0 = none)
 type prefixLoop struct {
-	capMax   int64
-	capCmp   string
+	capMax    int64
+	capCmp    string
 	call      ssa.Instruction
 	inclusive bool
 	found     bool
